@@ -167,11 +167,16 @@ UNITS["store"] = {
     "name": "store",
     "derive_keep": ["Debug", "Default", "PartialEq", "Eq"],
     "header": STORE_HEADER,
-    "specs": ["log.spec", "utils.spec", "storage.spec", "store.spec"],
+    "specs": ["log.spec", "utils.spec", "storage.spec", "config.spec", "store.spec"],
     "parts": [
         ("raw", "prelude/store_prelude.rs", "prelude"),
         ("raw", "lemmas/world_lemmas.rs", "lemma"),
-        ("repo", "src/storage/bitcask/config.rs", {"mod": "config", "only": ["struct Config", "enum SyncStrategy", "struct MergeStrategy", "enum MergePolicy", "struct MergeTriggers", "struct MergeThresholds"]}),
+        ("repo", "src/storage/bitcask/config.rs", {"mod": "config", "rules": (make_seq_rule("R-vis", "pub fn", "pub(super) fn"), R_GHOST_ARG),
+                                                   "only": ["struct Config", "enum SyncStrategy", "struct MergeStrategy", "enum MergePolicy", "struct MergeTriggers", "struct MergeThresholds",
+                                                            "impl Config::fn concurrency", "impl Config::fn readers_cache_size", "impl Config::fn max_file_size", "impl Config::fn sync",
+                                                            "impl Config::fn merge_policy", "impl Config::fn merge_trigger_fragmentation", "impl Config::fn merge_trigger_dead_bytes",
+                                                            "impl Config::fn merge_threshold_fragmentation", "impl Config::fn merge_threshold_dead_bytes", "impl Config::fn merge_threshold_small_file",
+                                                            "impl Config::fn merge_check_interval_ms", "impl Config::fn merge_check_jitter", "impl Config::fn open", "impl Config::fn path"]}),
         ("raw", "prelude/log_ghost.rs", "prelude", {"mod": "log"}),
         ("repo", "src/storage/bitcask/log.rs", {"mod": "log", "stub_all": True, "rules": (R_GHOST_ARG,)}),
         ("repo", "src/storage/bitcask/utils.rs", {"mod": "utils", "stub_all": True, "rules": (R_GHOST_ARG, R_FILEIDS_TY),
@@ -196,9 +201,9 @@ UNITS["store"] = {
         "bitcask": "use super::log::{self, LogDir, LogIterator, LogStatistics, LogWriter, LogIndex, enc_len};\nuse super::utils::{self, datafile_name};\nuse super::config::*;\nuse super::io::BufWriter;\nuse super::kvtrait::KeyValueStorage;\nuse super::broadcast;",
         "kvtrait": "",
         "utils": "",
-        "config": "",
+        "config": "use super::bitcask::Bitcask;",
     },
-    "root_uses": "",
+    "root_uses": "pub use bitcask::Error;\n",
     "extern": ["bytes"],
 }
 
@@ -301,13 +306,13 @@ UNITS["cmd"] = {
         ("repo", "src/net/server.rs", {"mod": "server", "rules": CMD_RULES + (rule_mut_self, R_TRYFROM_CALL), "select": True, "only": ["struct Handler", "impl Handler<KV>::fn run"]}),
         ("raw", "prelude/client_prelude.rs", "prelude", {"mod": "client"}),
         ("raw", "lemmas/client_lemmas.rs", "lemma", {"mod": "client"}),
-        ("repo", "src/net/client.rs", {"mod": "client", "rules": CLIENT_RULES, "only": ["struct Client", "impl Client::fn get", "impl Client::fn set", "impl Client::fn del", "impl Client::fn read_response"]}),
+        ("repo", "src/net/client.rs", {"mod": "client", "rules": CLIENT_RULES, "only": ["struct Client", "impl Client::fn connect", "impl Client::fn get", "impl Client::fn set", "impl Client::fn del", "impl Client::fn read_response"]}),
     ],
     "mod_uses": {"connection": "broadcast use super::error::verif_from_Error::axiom_from_Error_Io;\nuse super::frame::{self, Frame};", "error": "",
                  "command": "use super::frame::{self, Frame};\nuse super::connection::Connection;\nuse super::{del::Del, get::Get, set::Set};\nuse std::convert::TryFrom;\nuse vstd::std_specs::iter::IteratorSpec;",
                  "get": CMD_USES, "set": CMD_USES, "del": CMD_USES,
                  "server": "use std::sync::Arc;\nuse std::convert::TryFrom;\nuse super::command::{Command, SCmd, spec_command, reply, effect, cview, req_frame};\nuse super::connection::Connection;\nuse super::frame::{self, Frame};",
-                 "client": CMD_USES + "\nuse super::{del::Del, get::Get, set::Set};"},
+                 "client": CMD_USES + "\nuse super::{del::Del, get::Get, set::Set};\nuse std::net::ToSocketAddrs;"},
     "root_uses": "pub use frame::*;\npub use error::Error;\npub use connection::Connection;\n",
     "extern": ["bytes"],
 }
@@ -422,14 +427,14 @@ UNITS["slots"] = {
         ("repo", "src/net/error.rs", {"mod": "error", "only": ["enum Error"]}),
         ("raw", "lemmas/shutdown_views.rs", "lemma", {"mod": "shutdown"}),
         ("repo", "src/shutdown.rs", {"mod": "shutdown", "only": ["struct Shutdown", "impl Shutdown::fn new", "impl Shutdown::fn is_shutdown", "impl Shutdown::fn recv"]}),
-        ("repo", "src/net/config.rs", {"mod": "config", "only": ["struct Config"]}),
+        ("repo", "src/net/config.rs", {"mod": "config", "only": ["struct Config", "impl Config::fn async_server"]}),
         ("repo", "src/net/server.rs", {"mod": "server", "rules": (make_seq_rule("R-mut-self", "fn run(mut self)", "fn run(self)"),), "stub_all": True, "only": ["struct Handler", "impl Handler<KV>::fn run"]}),
         ("repo", "src/net/server.rs", {"mod": "server", "rules": (R_SLOT_GHOST, R_SLOT_NEW, R_SLOT_NEW_SIG, R_SLOT_ADDR, make_seq_rule("R-mut-self", "fn run(mut self)", "fn run(self)")), "header_rules": (R_DROP_IMPL,),
                                        "outline": {"impl Listener<KV>::fn listen": {"name": "verif_conn_task", "args": "handler", "params": "handler: Handler<KV>"}},
                                        "only": ["struct Server", "impl Server<KV,S>::fn new", "impl Server<KV,S>::fn run", "struct Listener", "impl Listener<KV>::fn accept", "impl Listener<KV>::fn listen", "impl Listener<KV>::fn verif_conn_task",
                                                 "impl Drop for Handler<KV>::fn drop"]}),
     ],
-    "mod_uses": {"error": "", "shutdown": "", "config": "", "server": "use std::sync::Arc;\nuse std::future::Future;\nuse super::shutdown::Shutdown;"},
+    "mod_uses": {"error": "", "shutdown": "", "config": "use super::server::Server;", "server": "use std::sync::Arc;\nuse std::future::Future;\nuse super::shutdown::Shutdown;"},
     "root_uses": "pub use error::Error;\npub use config::Config;\n",
     "extern": [],
 }
